@@ -1,17 +1,24 @@
 #!/bin/bash
-# neutral.sh: apply each semantics-preserving patch in neutral/ to /repo, run the checks of the properties it touches,
-# expect exit 0 (no alarm) - exit 2 (undecided) is reported separately. Restores /repo after each.
+# neutral.sh [regex]: apply each semantics-preserving patch in neutral/ to a scratch copy of /repo's HEAD, run the checks of the properties it
+# touches against that copy (VERIF_REPO / VERIF_OUT / VERIF_BUILD: /repo and the committed evidence are never touched), expect exit 0
+# (no alarm); exit 2 (undecided) is reported separately and is not an alarm either.
 cd /verif
-NOUT=$(mktemp -d /tmp/neutral-out.XXXXXX)
-declare -A PROPS=( [N1]="C04 C08" [N2]="C03 C07" [N3]="C10" [N6]="C06" [N8]="C08 C01" [N9]="C15" [N10]="C14" [N11]="C16 C15" [N12]="C12" [N13]="C18 C05" [N14]="C17 C05" [N15]="C05 C08" [N16]="C15" [N17]="C16" [N18]="C11 C04" )
-for f in neutral/*.diff; do
-  n=$(basename $f .diff)
-  git -C /repo apply /verif/$f || { echo "$n: patch does not apply"; continue; }
-  ( cd /repo && cargo build --offline 2>&1 | grep -qE "^error" && echo "$n: DOES NOT COMPILE" )
-  for p in ${PROPS[$n]}; do
-    out=$(VERIF_OUT=$NOUT ./check $p 2>&1); rc=$?
+declare -A PROPS=( [N1]="C04 C08" [N2]="C03 C07" [N3]="C10" [N6]="C06" [N8]="C08 C01" [N9]="C15" [N10]="C14" [N11]="C16 C15" [N12]="C12" [N13]="C18 C05" [N14]="C17 C05" [N15]="C05 C08" [N16]="C15" [N17]="C16" [N18]="C11 C04"
+  [N19]="C16" [N20]="C19" [N21]="C07 C01 C20" [N22]="C10 C20" [N23]="C13 C12 C09" [N24]="C19" )
+run_one() {
+  n=$1; shift
+  W=$(mktemp -d /tmp/neutral.XXXXXX); mkdir -p $W/repo $W/out $W/build
+  git -C /repo archive HEAD | tar -x -C $W/repo
+  if ! (cd $W/repo && patch -p1 -s < /verif/neutral/$n.diff >/dev/null 2>&1); then echo "$n: patch does not apply"; rm -rf $W; return; fi
+  for p in "$@"; do
+    out=$(VERIF_REPO=$W/repo VERIF_OUT=$W/out VERIF_BUILD=$W/build ./check $p quick 2>&1); rc=$?
     echo "$n $p rc=$rc $(echo "$out" | grep -E 'VIOLATION|UNDECIDED' | head -2 | cut -c1-200)"
   done
-  git -C /repo checkout -- .
-done
-rm -rf $NOUT
+  rm -rf $W
+}
+export -f run_one
+for f in neutral/*.diff; do
+  n=$(basename $f .diff)
+  echo "$n" | grep -qE -- "${1:-.}" || continue
+  echo "$n ${PROPS[$n]}"
+done | xargs -P ${JOBS:-4} -L1 bash -c 'run_one $0 "$@"'
